@@ -460,6 +460,16 @@ func inAppendFloat(fr *frame, a []Value) Value {
 		s := strconv.AppendFloat(nil, math.Float64frombits(v.val), byte(fm), int(prec.SVal()), bits)
 		return x.appendBytes(fr, a[0], x.strConst(string(s)).b)
 	}
+	// special values are rendered by strconv as NaN / +Inf / -Inf whatever the format
+	if x.decide(fr, f.FIsNaN(v)) {
+		return x.appendBytes(fr, a[0], x.strConst("NaN").b)
+	}
+	if x.decide(fr, f.FIsInf(v)) {
+		if x.decide(fr, f.Eq(f.Extract(v, 63, 63), f.Const(1, 1))) {
+			return x.appendBytes(fr, a[0], x.strConst("-Inf").b)
+		}
+		return x.appendBytes(fr, a[0], x.strConst("+Inf").b)
+	}
 	x.notes = append(x.notes, fmt.Sprintf("AppendFloat(fmt=%c,bits=%d)", fm, bits))
 	x.floatCalls = append(x.floatCalls, floatCall{v: v, fm: fm, prec: prec, bits: bits})
 	bv := f.Const(8, uint64(bits))
